@@ -6,7 +6,7 @@ export GOFLAGS=-mod=mod GOPROXY=off GOSUMDB=off GOTOOLCHAIN=local
 wt=/tmp/wt-reval
 git -C /repo worktree remove --force $wt 2>/dev/null
 git -C /repo worktree add --detach $wt HEAD >/dev/null 2>&1 || exit 9
-ids="$*"; [ -n "$ids" ] || ids=$(ls -d /verif/seeded/C* | xargs -n1 basename)
+ids="$*"; [ -n "$ids" ] || ids=$(ls -d /verif/seeded/C[0-9]* | xargs -n1 basename)
 for id in $ids; do
   d=/verif/seeded/$id
   pkg=$(python3 -c "import json;m=json.load(open('$d/meta.json'));print(m['demo_placement'].split('/ ')[0])")
